@@ -238,6 +238,22 @@ CLAIMED = {
         "(TracePipelineLazy.tla); random DAGs are added.",
    note="Interleaved evaluation of several live handles and lazy + user caches are not driven.",
    technique="TLA+ lazy-evaluation state machine checked by TLC; universe export; TLC trace validation"),
+ "C10": dict(
+   category="model_checking", design_ref="6 C10",
+   text="Rewrites.tla: an object store objs[id] = [sem (semantic description), ren (current spelling of every name), outs, "
+        "merged, heads] with actions Copy, PickleRoundTrip, Join, UpdateRenames, UpdateScope / RemoveScope, NestFuncs, "
+        "Simplified, SplitDisconnected, AddMapspecAxis and in-place mutations; EvalObs(id, out, inputs, mode) = Eval / "
+        "MapDenote of sem through ren; the action property NoAliasing (an action on a changes no other object) and the "
+        "RewritePreserves laws (renaming commutes with Eval, scope removal inverts addition, split components and join "
+        "operands keep their values, AddAxis lifts pointwise) are checked by TLC over compositions of rewrites on small "
+        "descriptions. Random DAGs (call style and mapped) x random rewrite sequences are executed for real; after every "
+        "step all live objects are evaluated on all retained outputs (dotted-key and nested-dict conventions, call and map) "
+        "and probed through a throw-away copy; TLC validates the event histories (TraceRewrites.tla). Refusing a rewrite "
+        "that is defined for the pipeline is a violation.",
+   note="Which functions simplify/nest merge is not modelled, only that retained outputs denote the same values. Legitimate "
+        "refusals are stated in the spec. conservatively_combine, function-level update_renames, lazy pipelines and "
+        "resources attributes are not driven.",
+   technique="TLA+ rewrite-store model checked by TLC; rewrite histories on real pipelines validated by TLC"),
 }
 NOT_YET = "check not built yet in this round (specification module planned in DESIGN.md section 6)"
 
